@@ -14,7 +14,12 @@ import (
 
 	bsfetcher "github.com/ipfs/boxo/fetcher/impl/blockservice"
 	"github.com/ipfs/boxo/ipld/merkledag"
-	mdtest "github.com/ipfs/boxo/ipld/merkledag/test"
+	"github.com/ipfs/boxo/blockservice"
+	"github.com/ipfs/boxo/blockstore"
+	"github.com/ipfs/boxo/exchange/offline"
+	blocks "github.com/ipfs/go-block-format"
+	ds "github.com/ipfs/go-datastore"
+	dssync "github.com/ipfs/go-datastore/sync"
 	ft "github.com/ipfs/boxo/ipld/unixfs"
 	uio "github.com/ipfs/boxo/ipld/unixfs/io"
 	"github.com/ipfs/boxo/path"
@@ -73,8 +78,38 @@ func initPool(n int) {
 // ---------------------------------------------------------------------------
 // shared content-addressed store, builders
 
+// ctxStore models what every real datastore does and the in-memory map does not:
+// an operation started with a finished context fails with ctx.Err().
+type ctxStore struct{ blockstore.Blockstore }
+
+func (c ctxStore) Get(ctx context.Context, k cid.Cid) (blocks.Block, error) {
+	if err := ctx.Err(); err != nil {
+		return nil, err
+	}
+	return c.Blockstore.Get(ctx, k)
+}
+
+func (c ctxStore) Has(ctx context.Context, k cid.Cid) (bool, error) {
+	if err := ctx.Err(); err != nil {
+		return false, err
+	}
+	return c.Blockstore.Has(ctx, k)
+}
+
+func (c ctxStore) GetSize(ctx context.Context, k cid.Cid) (int, error) {
+	if err := ctx.Err(); err != nil {
+		return 0, err
+	}
+	return c.Blockstore.GetSize(ctx, k)
+}
+
+func newBserv() blockservice.BlockService {
+	bs := ctxStore{blockstore.NewBlockstore(dssync.MutexWrap(ds.NewMapDatastore()))}
+	return blockservice.New(bs, offline.Exchange(bs))
+}
+
 var (
-	bserv = mdtest.Bserv()
+	bserv = newBserv()
 	dserv = merkledag.NewDAGService(bserv)
 	res   resolver.Resolver
 	memo  sync.Map // build key -> *nodeM
@@ -520,6 +555,18 @@ func runSpine(r *eng.Run, sp spine) {
 		r.Report(g)
 		return
 	}
+	if last := sp.Levels[len(sp.Levels)-1]; last.Kind == 1 {
+		// fan-out 8: two names sharing the first 3 hash bits are stored in a child shard block
+		seen := map[uint64]bool{}
+		for _, ni := range last.Names {
+			h := hashBitsPrefix(pool[ni], 3)
+			if seen[h] {
+				r.Add("spines_last_dir_hamt_entry_in_child_shard", 1)
+				break
+			}
+			seen[h] = true
+		}
+	}
 	qs := sp.queries(root)
 	for _, q := range qs {
 		vs, out := check(r, sp, root, q)
@@ -595,6 +642,7 @@ type plan struct {
 func body(r *eng.Run) {
 	r.Rule("every spine of directories (depth d, each level: kind in {basic, HAMT width 8, HAMT width 256} x every subset of the name pool with <= F names x every choice of the entry holding the next level; the other entries are fixed raw/dag-pb/two-block files and sub-directories whose CIDs differ per name); for every directory on the spine every pool name is looked up (existing and missing), plus continuations below missing names, below files and inside terminal sub-directories, through ResolveToLastNode, ResolvePath and ResolvePathComponents; a case is non-trivial when it has >= 1 path segment; additionally wide one-level directories with every present and as many absent names")
 	r.Assume("the DAG builders (uio.NewBasicDirectory / NewHAMTDirectory, merkledag) store each child under the name given to AddChild (checked separately by C15)")
+	r.Assume("block storage fails with ctx.Err() when called with a finished context (modelled by a wrapper around the in-memory blockstore), like any real datastore")
 	r.Assume("resolution of a path reads only the directories along it, so siblings are fixed per name instead of being enumerated as arbitrary subtrees")
 	plans := eng.Pick(r, []plan{{6, 3, 1}, {5, 2, 2}}, []plan{{8, 3, 1}, {7, 3, 2}, {4, 2, 3}})
 	r.Set("plans_pool_fan_depth", plans)
